@@ -26,6 +26,11 @@ CLAIMS = {
          'TLC proves Unesc(Esc(s)) = s, value preservation around every cycle of the representation graph and serialise/parse round trips of XDM trees on the specification, shows that the implemented str.replace unescape chain is not confluent, and the dumped graphs (all strings <= 2-3 over the escape alphabet, JSON values of depth <= 2, trees N <= 3) are replayed on the real functions.',
          'alphabet of 10 representative characters incl. a control, DEL and an astral character; parse-json escape=true excluded; number formatting compared by value; json.loads trusted as second oracle',
          'DESIGN.md section 4 C17'),
+ 'C14': ('model_checking',
+         'TLA+ specs XDMX (XDM extended with namespaced names, PI targets, namespace nodes, document-level siblings) and PathStrings (W3C fn:path scheme as a walk machine) checked by TLC (Eval(PathOf(n)) = {n}, injectivity); every node of every tree replayed: fn:path / node.path / etree_iter_paths strings compared with the spec rendering and evaluated back with the 3.x parsers; libxml2 as second oracle on the XPath 1.0 transliteration',
+         'TLC proves on the specification that the fn:path scheme identifies every node of every tree in bounds uniquely (and refutes the as-implemented sibling counting in a negative configuration); the real path strings of every node (document, element, attribute, text, comment, PI, namespace) from three APIs must equal the spec and select exactly that node again on xml.etree and lxml, for document, element and fragment roots.',
+         'trees N<=3 all kinds (N=4 restricted kinds) with two namespaces, a default namespace, PI targets pi and a; no-namespace element under a default-namespace root excluded; node.path under fragment=True compared as a string only',
+         'DESIGN.md section 4 C14'),
 }
 NOT_YET = 'check not built yet (construction in progress, see DESIGN.md section 5)'
 
